@@ -19,13 +19,13 @@ THEOREMS = ["UrcuVerif.CallRcu.cb_at_most_once", "UrcuVerif.CallRcu.cb_conserved
             "UrcuVerif.CallRcu.inva_step", "UrcuVerif.CallRcu.invb_step", "UrcuVerif.CallRcu.invf_step",
             "UrcuVerif.CallRcu.invd_step", "UrcuVerif.CallRcu.inve_step", "UrcuVerif.CallRcu.invl_step",
             "UrcuVerif.CallRcu.invw_step", "UrcuVerif.CallRcuWake.inv_step"]
-UNPROVED = ["UrcuVerif.CallRcu.C03_full as first written (weak per-thread fairness only) is FALSE - machine-checked C03_full_false: weak "
-            "fairness does not get a thread through call_rcu_mutex (a statement artefact, not a code defect). Proved instead, with "
-            "fairness and environment as explicit hypotheses on the run: queued_callback_eventually_invoked (a callback in a helper's "
-            "queue is eventually invoked exactly once if the helper and the wakers are weakly fair, read-side sections end, callbacks "
-            "terminate, the helper is not stopped / paused), helper_eventually_wakes, tso_helper_eventually_wakes. Still open: from "
-            "call_rcu() entry to the enqueue when the default helper must first be created under call_rcu_mutex (needs strong fairness "
-            "or 'lock eventually acquired'), and the hand-over path when the helper is destroyed meanwhile"]
+UNPROVED = ["(none) 'eventually invoked exactly once' is proved end to end with the property's provisos as explicit hypotheses on the run "
+            "(CallRcu.FairEnv: strong fairness of each thread's library steps incl. lock acquisition, weak fairness of the helpers, "
+            "sections end, callbacks terminate, no pause / no concurrent urcu_call_rcu_exit): callback_eventually_invoked_from_call "
+            "(from the call_rcu() entry, through default / per-thread / per-CPU selection and lazy creation of the default helper) and "
+            "queued_callback_eventually_invoked_any (incl. the hand-over when the helper is destroyed meanwhile). C03_full as FIRST "
+            "written (weak per-thread fairness only) is false - machine-checked C03_full_false (starvation at call_rcu_mutex): a "
+            "statement artefact, kept as a record"]
 TRUSTED = ["Lean 4.33 kernel; axioms ⊆ {propext, Classical.choice, Quot.sound}",
            "grace period = GpSpec (C01): the helper's synchronize_rcu() returns only when every read-side section that began before its call has ended",
            "wfcqueue enqueue is atomic at the xchg of the tail and splice/iteration return the nodes in enqueue order (C10); the delayed old_tail->next store and the dequeuer's busy-wait are checked at event level only",
